@@ -13,6 +13,7 @@ package main
 
 import (
 	"fmt"
+	"regexp"
 	"sort"
 	"strings"
 )
@@ -72,7 +73,9 @@ func (w *World) typeSlots() ([]typeSlot, []string) {
 				case strings.HasPrefix(e.Kind, "scalar:"):
 					tk := ""
 					if len(e.Args) > 0 && e.Args[0] != nil {
-						tk = e.Args[0].key
+						// the same expression evaluated in a helper stepped into on different
+						// paths differs only in its frame number
+						tk = frameIDs.ReplaceAllString(e.Args[0].key, "c/")
 					}
 					out = append(out, typeSlot{name, hdr, e.Kind, e.Pos, tables, tk})
 				default:
@@ -183,3 +186,5 @@ func (w *World) ruleTypeSlots(r *Report, rule string) {
 	}
 	r.floor(rule, len(ks), 3)
 }
+
+var frameIDs = regexp.MustCompile(`c[0-9]+/`)
